@@ -49,6 +49,12 @@ def run(tier, out):
         s = V.harness_json(["hs", "random", nrand, 200, rp, rank, mode])
         evals += s["steps"]
         validated += H.validate(PID, out, rp, s, rank, mode, "random schedules", sub="trace-random-%s-%s" % (rank, mode))
+    # node level: adversarial network, then reliable: reconnection deadline and payload both ways
+    from checks import noderuns
+    np_ = os.path.join(wd, "noderuns.ndjson")
+    sn = V.harness_json(["node", "c05", tier, np_], timeout=7200)
+    evals += sn["runs"]
+    validated += noderuns.validate_records(PID, out, np_, lambda e: "c05|node|%s" % ("panic" if e.get("panics") else ("not-reconnected" if e.get("reconnect_after", -1) < 0 else ("late" if e.get("deliveries") == e.get("expected_deliveries") else "payload-lost"))), "C05 node-level recovery runs")
     st_desc = V.binding_selftest(out, PID, "Trace_Handshake.tla", "Trace_Handshake.cfg", first_trace, first_summ["events"],
                                  lambda e: e["op"] == "recv" and e["res"] == "succI",
                                  lambda e: e.__setitem__("res", "cont"), "completion reported as Continue", xmx="6g") \
